@@ -28,14 +28,14 @@ def outcomes_of(r):
         if ln.startswith('<<"VERIF", "'):
             o = json.loads(json.loads(ln[len('<<"VERIF", '):-2]))
             key = cfg_key(o)
-            table.setdefault(key, {"cfg": {k: o[k] for k in ("startup", "n", "t", "a", "per", "discard")},
+            table.setdefault(key, {"cfg": {k: o[k] for k in ("startup", "n", "t", "tmin", "a", "per", "discard")},
                                    "expected": set(), "outs": set()})
             table[key]["outs"].add((o["created"], o["shots"], o["acquired"]))
     return table
 
 
 def cfg_key(o):
-    return json.dumps([o["startup"], o["t"], o["a"], o["per"], o["discard"]])
+    return json.dumps([o["startup"], o["t"], o["tmin"], o["a"], o["per"], o["discard"]])
 
 
 def design(cfg, workers=8, timeout=1500, heap="6g"):
@@ -164,6 +164,8 @@ def cases(v, pid, b, d, table, rep, tag):
         out = (r["created"], r["shots"], r["acquired"])
         evaluations += 1
         seen.setdefault(key, set()).add(out)
+        if table[key]["cfg"]["t"] < 0:
+            continue    # unknown length: TLC's outcome set is cut at tmin + UnlExtra tokens; trace validation only
         if r["err"] == "" and out not in table[key]["outs"]:
             c = table[key]["cfg"]
             v.violation("pool case outcome n=%d t=%d a=%d per=%s discard=%s" % (c["n"], c["t"], c["a"], c["per"], c["discard"]),
@@ -172,8 +174,9 @@ def cases(v, pid, b, d, table, rep, tag):
                         replay_obj={"kind": "case", "cfg": c, "allowed": sorted(table[key]["outs"]), "observed": out,
                                     "events": [x for x in rows if x["run"] == r["run"]]},
                         replay_name="%s_case%d.json" % (tag, conf["case"]))
-    reached = sum(len(seen.get(k, set()) & table[k]["outs"]) for k in keys)
-    possible = sum(len(table[k]["outs"]) for k in keys)
+    known = [k for k in keys if table[k]["cfg"]["t"] >= 0]
+    reached = sum(len(seen.get(k, set()) & table[k]["outs"]) for k in known)
+    possible = sum(len(table[k]["outs"]) for k in known)
     return rows, validated, states, {"cases": len(keys), "case_runs": evaluations,
                                      "spec_outcomes": possible, "spec_outcomes_observed": reached}
 
